@@ -38,6 +38,10 @@ pub struct Case {
     /// 0 = no disk tier, 1 = small, 2 = large
     pub l2: u8,
     pub ops: Vec<Op>,
+    /// conditional reads and heads go through a second CachedObjectStore over the same TieredCache
+    /// (two engines of one process sharing the cache): what one wrapper cached, the other serves
+    #[serde(default)]
+    pub two_wrappers: bool,
 }
 
 const L1S: [usize; 4] = [1, 64, 4096, 1 << 20];
@@ -136,6 +140,12 @@ async fn run(case: &Case, core: Option<Arc<SimCore>>, out: &mut Outcome) {
     out.class(format!("l1:{}", L1S[case.l1 as usize % 4]));
     out.class(format!("l2:{}", ["none", "small", "large"][case.l2 as usize % 3]));
     let sut = Arc::new(CachedObjectStore::new(inner.clone(), cache.clone()));
+    let sut2 = if case.two_wrappers {
+        out.class("second-wrapper-over-the-same-cache");
+        Arc::new(CachedObjectStore::new(inner.clone(), cache.clone()))
+    } else {
+        sut.clone()
+    };
     let mut w = World { inner, sut, cache, keys: Vec::new(), read_before: BTreeMap::new() };
     for op in &case.ops {
         match op {
@@ -241,7 +251,7 @@ async fn run(case: &Case, core: Option<Arc<SimCore>>, out: &mut Outcome) {
                     let etag = w.inner.head(&Path::from(name.as_str())).await.ok().and_then(|m| m.e_tag).unwrap_or_default();
                     let tag = if *right { etag } else { "no-such-etag".to_string() };
                     let o = if matches!(op, Op::GetIfMatch { .. }) { GetOptions { if_match: Some(tag), ..Default::default() } } else { GetOptions { if_none_match: Some(tag), ..Default::default() } };
-                    let s = body(w.sut.get_opts(&Path::from(name.as_str()), o.clone()).await).await;
+                    let s = body(sut2.get_opts(&Path::from(name.as_str()), o.clone()).await).await;
                     let i = body(w.inner.get_opts(&Path::from(name.as_str()), o).await).await;
                     // a conditional read the backing store would refuse but the cache answers with the
                     // correct bytes is tolerated: the property is about bytes
@@ -448,7 +458,7 @@ fn op() -> impl Strategy<Value = Op> {
 }
 
 fn strategy(l2: bool) -> BoxedStrategy<Case> {
-    (0u8..4, if l2 { 1u8..3 } else { 0u8..1 }, prop::collection::vec(op(), 1..40)).prop_map(|(l1, l2, ops)| Case { l1, l2, ops }).boxed()
+    (0u8..4, if l2 { 1u8..3 } else { 0u8..1 }, prop::collection::vec(op(), 1..40), prop::bool::weighted(0.3)).prop_map(|(l1, l2, ops, two_wrappers)| Case { l1, l2, ops, two_wrappers }).boxed()
 }
 
 pub fn def() -> PropDef {
